@@ -521,8 +521,14 @@ func (a *Attacker) Stop() bool {
 	case <-a.stopch:
 		return false
 	default:
-		a.stopOnce.Do(func() { close(a.stopch) })
-		return true
+		// Only the call that actually closes the channel reports true, so
+		// that concurrent calls can't all claim to have signalled the stop.
+		stopped := false
+		a.stopOnce.Do(func() {
+			close(a.stopch)
+			stopped = true
+		})
+		return stopped
 	}
 }
 
